@@ -461,6 +461,9 @@ theorem customBuildStep_ok {m : Module} {sources combined cb} {ls ls' : LoopStat
     (h : customBuildStep ev flat m srcdir sources combined cb ls = .ok ls') :
     ls.entries ⊆ ls'.entries ∧ ls'.objects = ls.objects := by
   unfold customBuildStep at h
+  split at h
+  · cases h
+  unfold customBuildStepCore at h
   simp only [bind, Except.bind, pure, Except.pure] at h
   split at h
   · cases h
